@@ -18,8 +18,8 @@ CLAIMED = {
          "Part A: every interleaving of two transactions x <=2 statements (thorough: 3 statements / 3 transactions) over 9 statement shapes (reads by sequential scan, index point, index range; insert, deletes, in-place / key-changing / growing-relocating updates), every commit/abort outcome: a statement of a non-aborted transaction must return the model answer over committed data + own pending writes; a write hitting a row with another transaction's pending change must abort. Part B: 7 (thorough 10) two/three-goroutine scenarios, every schedule with <=2 (thorough 3) preemptions at lock/latch granularity: answers and final table must be explainable by a serial order of the committed transactions (unique written values).",
          "aborts are always acceptable; atomics are not scheduling points; RW-latches modelled without writer preference; conflict-directed preemption points", "§4 C04"),
  "C05": ("as C04: statement-granularity interleavings (Engine A) + preemption-bounded schedules of real goroutines (Engine C); oracle = brute force over serial orders of the committed transactions",
-         "Programs that cannot create phantoms (reads by key through point/range/scan path, writes to the non-key column of rows addressed by key, unique written values): every statement-granularity interleaving of 2 transactions x <=2 (thorough 3; 3 transactions x 2) statements, and every schedule with <=2 (thorough 3) preemptions of lost-update / write-skew / repeatable-read / range-read-vs-writer scenarios run as real goroutines: some serial order of the committed transactions must reproduce all their reads and the final table.",
-         "as C04", "§4 C05"),
+         "Programs that cannot create phantoms (reads by key through point/range/scan path and of the whole table, writes to the non-key column of rows addressed by key, DELETE by key, unique written values): every statement-granularity interleaving of 2 transactions x <=2 (thorough 3; 3 transactions x 2) statements, and every schedule with <=2 (thorough 3) preemptions of lost-update / write-skew / repeatable-read / range-read-vs-writer scenarios run as real goroutines: some serial order of the committed transactions must reproduce all their reads and the final table.",
+         "as C04; the observations each transaction has made are part of the state key (the oracle is path-dependent)", "§4 C05"),
  "C06": ("bounded-exhaustive input enumeration on the real SQL path: all predicate trees up to 2 (thorough 3) leaves x adversarial and all small table contents x select lists x DML forms, every cost-minimal plan (plan-choice hook), against a row model",
          "For three schemas (INT/INT, INT/FLOAT, INT/VARCHAR): adversarial contents (duplicates, boundary integers, -0.0/denormal/huge floats, empty/quoted/600-byte strings, 2-page table) with ALL predicate trees over = <> < <= > >= AND/OR up to the leaf bound, plus all multisets of <=2 (thorough <=3) rows with all single-leaf predicates and a stride of the deeper ones; every select list; UPDATE with every SET order, DELETE, single/multi-row and reordered-column INSERT, adversarial literal forms. Each statement is executed on the real engine under every cost-minimal plan and compared with the row model.",
          "supported subset as stated in the evidence file (column op constant, no NULL through SQL, no ORDER BY); statistics in their initial state", "§4 C06"),
@@ -39,14 +39,14 @@ CLAIMED = {
          "All pairs of small table contents (0-2, thorough 0-3 rows over a 3-value join key domain: duplicates, missing keys, empty tables), every single-equality ON over the 4 column pairs (also written in WHERE), no / 1 / 2-leaf conjunctive filters over either table, several select lists, cross joins, 3-table chains; statistics never updated / current / stale; every distinct plan found by breadth-first enumeration of tie-break deviations (hash join both orientations, index join, nested loop, with/without residual selection) is executed and compared with the naive evaluation.",
          "README's supported join form; plan enumeration is budgeted (48 planning runs per query, breadth-first: all single deviations from the canonical plan are always covered); NULL keys not reachable through SQL", "§4 C11"),
  "C12": ("preemption-bounded schedule enumeration of client goroutines calling the real ExecuteSQL, with the RequestManager loop, worker goroutines, channels and mutexes under a controlled scheduler; per-schedule linearizability check against a sequential table model; the 100-slot request channel is additionally modelled at capacity 1 and 2 (capacity+2 clients) and what that finds is replayed by one directed schedule against the real capacity with 102 clients",
-         "2-3 client goroutines x 1-2 calls (reads and multi-row updates over overlapping key ranges of a 4-row table, unique written values); every schedule with <=1 (thorough <=2) preemptions and <=2 non-preemptive deviations at lock/latch/channel granularity is executed on the real code; each call must return exactly once with a result of its own statement, the history must be linearizable respecting real time, the final table must match, no deadlock and no livelock.",
+         "2-3 client goroutines x 1-2 calls (reads and multi-row updates over overlapping key ranges of a 4-row table, unique written values); every schedule with <=1 (thorough <=2) preemptions and <=2 non-preemptive deviations at lock/latch/channel granularity is executed on the real code; each call must return exactly once with a result of its own statement, the history must be linearizable respecting real time, the final table must match, no deadlock and no livelock. DDL scenario: two (thorough three) clients each CREATE their own table, insert into it and read it back concurrently - every call answers its own statement, afterwards the tables have pairwise distinct ids and first pages and their own rows.",
          "go/chan constructs of lib/samehada rewritten mechanically to scheduler calls at check time; deviation bounds as stated (retry loops make the unbounded space cyclic); atomics are not scheduling points", "§4 C12"),
- "C13": ("explicit-state search over all new/fetch/write/unpin/flush/deallocate sequences on the real BufferPoolManager (pool sizes 1-3, in-memory and file disk manager, 2 users), merged on the pool's private state",
-         "Every operation sequence up to the depth bound is executed on the real buffer pool; after every call the page table, frames, pin counts, resident bytes and on-disk bytes (read back through the disk manager) are compared with a map model page->latest bytes: fetch returns the latest bytes, pinned pages keep their frame, frames are never shared, new ids are never live ids.",
-         "API contract restrictions listed in the evidence file (creator initialises and unpins dirty; deallocation only in the two call patterns the code base uses); single-threaded; depth bound", "§4 C13"),
+ "C13": ("explicit-state search over all new/fetch/write/unpin/flush/flush-all/deallocate sequences on the real BufferPoolManager (pool sizes 1-3, in-memory and file disk manager, 2 users), merged on the pool's private state + preemption-bounded schedule enumeration of 2-3 real goroutines on 2-3 frames under a controlled scheduler",
+         "Every operation sequence up to the depth bound is executed on the real buffer pool; after every call the page table, frames, pin counts, resident bytes and on-disk bytes (read back through the disk manager) are compared with a map model page->latest bytes: fetch returns the latest bytes, pinned pages keep their frame, frames are never shared, new ids are never live ids, a clean unpinned resident page equals its disk image. Concurrent part: every schedule with <=3 (thorough 5) preemptions of 9 (12) small programs (fetch/write/unpin, new page, temp page + deallocation, FlushPage, pin held across the other thread's evictions); every thread writes its own byte lane, so the final content of every page - through the pool and on disk - is determined.",
+         "API contract restrictions listed in the evidence file (creator initialises and unpins dirty; deallocation only in the two call patterns the code base uses); depth bound; concurrent scenarios keep frames >= possible simultaneous pins (an exhausted pool panics by design)", "§4 C13"),
  "C14": ("explicit-state search over sequences of one statement per plan shape (all equal-cost join plans via the plan-choice hook) on the real database, pin vector of all frames compared before/after each statement",
          "Every sequence (<=3, thorough <=4) of 16 statement shapes (seq scan, index point/range, selection, projection, hash/index join in every equal-cost variant, page-allocating insert, relocating and key-changing update, delete, refused statements, statements aborted by a lock conflict) on tables of 0 rows / 3 rows / 2 pages with pool 128 KB and 64 KB; after each statement no frame may be pinned that was not pinned before it.",
-         "DDL only in the seed; pin-count growth on pages that are pinned for the life of an index (skip-list start node) is reported as a statistic, not a violation (no additional frame is held)", "§4 C14"),
+         "DDL only in the seed; every SELECT is also run below a plan-level LIMIT 1 node (the parent stops pulling early; LIMIT is not planned from SQL); pin-count growth on pages that are pinned for the life of an index (skip-list start node) is reported as a statistic, not a violation (no additional frame is held)", "§4 C14"),
  "C15": ("explicit-state search over all operation sequences on the real TablePage, merged on raw page bytes, against a slot map model",
          "Every sequence of insert/update(grow, shrink, rollback flavour)/mark-delete/apply-delete/rollback-delete up to the depth bound, with row sizes from 1 byte to exactly-fills-the-page and one-too-big, is executed on the real slotted page; after every operation the raw 4096 bytes are compared with a slot->bytes model (row bytes, disjointness, bounds, free-space pointer, slot array, read path).",
          "recovery-phase transaction (no lock manager), logging off; operations restricted to the call patterns TableHeap/Abort/recovery use; depth and slot-count bounds in the evidence file", "§4 C15"),
